@@ -421,6 +421,7 @@ func init() {
 }
 
 func runC15(c *Ctx) {
+	listAndIndexInStep(c, "C15.f list-and-index-in-step")
 	sites := 0
 	for _, fn := range c.ModFns {
 		for _, ci := range c.callsNamed(fn, fnClientsDelete) {
@@ -519,6 +520,14 @@ func runC15(c *Ctx) {
 			}
 			c.ob("C15.d interval-capped", "(*mqtt.Server).processDisconnect: the stored interval is capped by Capabilities.MaximumSessionExpiryInterval", c.pos(st.Pos()), capped,
 				"the session would outlive the server maximum: stored value "+describe(st.Val))
+			// (e) what is stored is the packet's own interval, or the server maximum on the edge where the interval
+			// exceeds it (or the builtin min of the two): any other function of the value has to keep 0 as 0
+			v := describe(st.Val)
+			okv := v == "pk.Properties.SessionExpiryInterval" ||
+				(strings.HasPrefix(v, "builtin.min(") && strings.Contains(v, "pk.Properties.SessionExpiryInterval")) ||
+				(v == "s.Options.Capabilities.MaximumSessionExpiryInterval" && dominatedByFact(st, textHas("SessionExpiryInterval > s.Options.Capabilities.MaximumSessionExpiryInterval"), true))
+			c.ob("C15.e interval-as-given", fmt.Sprintf("(*mqtt.Server).processDisconnect: the interval stored under %s is the packet's own value or the explicit cap", guardKey(st)), c.pos(st.Pos()), okv,
+				"stored value "+v+": a helper that treats 0 as 'unset' (mqtt.minimum) turns 'end the session now' into the server maximum")
 		}
 	}
 	if f := c.fn("mqtt", "(*Server).SendConnack"); f != nil {
